@@ -14,9 +14,10 @@ PI_BOUNDS = [PI > z3.RealVal('3.14159265358979'), PI < z3.RealVal('3.14159265358
 PI_FLOAT = 3.141592653589793
 
 def RV(x):
-    if isinstance(x, Fraction):
-        return z3.RealVal(str(x.numerator)) / z3.RealVal(str(x.denominator)) if x.denominator != 1 else z3.RealVal(str(x.numerator))
+    """z3 rational NUMERAL for a python number / Fraction / decimal string"""
+    if isinstance(x, Fraction): return z3.RealVal(f'{x.numerator}/{x.denominator}' if x.denominator != 1 else str(x.numerator))
     if isinstance(x, float): return RV(Fraction(x))
+    if isinstance(x, str) and ('.' in x or 'e' in x.lower()) and '/' not in x: return RV(Fraction(x))
     return z3.RealVal(x)
 
 # ---- boolean helpers with constant folding (python bools stay python bools) ----
@@ -149,6 +150,7 @@ class StrV:
     def __repr__(s): return f'Str({s.s!r})'
 
 class Unmergeable(Exception): pass
+CONFIG = {'merge_vec_lengths': True}   # False: states whose Vecs differ in length are kept apart instead of being merged into a guarded Vec
 
 def same(a, b):
     """structural identity of two values"""
@@ -180,9 +182,12 @@ def ite(c, a, b):
         return F(a.v if a.v.eq(b.v) else z3.If(c, a.v, b.v), b_ite(c, a.nan, b.nan), i_ite(c, a.inf, b.inf))
     pa, pb = isinstance(a, (bool, int)) and not isz(a), isinstance(b, (bool, int)) and not isz(b)
     if (pa or isz(a)) and (pb or isz(b)):
+        if pa and pb and not isinstance(a, bool) and not isinstance(b, bool) and a != b:
+            raise Unmergeable('concrete integers differ')      # loop indices / lengths: such states are kept apart (indices must stay concrete)
         ab = isinstance(a, bool) or (isz(a) and z3.is_bool(a))
         return b_ite(c, a, b) if ab else i_ite(c, a, b)
     if type(a) is not type(b): raise Unmergeable(f'{type(a).__name__} vs {type(b).__name__}')
+    if isinstance(a, RangeV) and not same(a, b): raise Unmergeable('loop counters differ')   # states in different iterations of a counted loop are kept apart
     if isinstance(a, Agg):
         if len(a.items) != len(b.items): raise Unmergeable('agg len')
         return type(a)([ite(c, x, y) for x, y in zip(a.items, b.items)], a.tag)
@@ -195,6 +200,7 @@ def ite(c, a, b):
         return Closure(a.name, [ite(c, x, y) for x, y in zip(a.items, b.items)])
     if isinstance(a, (VecV, IterV)):
         ea, eb = a.ents, b.ents; out = []
+        if len(ea) != len(eb) and not CONFIG['merge_vec_lengths'] and isinstance(a, VecV): raise Unmergeable('vec length')
         for i in range(max(len(ea), len(eb))):
             if i < len(ea) and i < len(eb):
                 out.append((b_ite(c, ea[i][0], eb[i][0]), ite(c, ea[i][1], eb[i][1])))
